@@ -61,7 +61,7 @@ def run_stream(ctx, progs, levels="0,1,2,3", gc=None):
 
 TRUSTED = [
     "Coq 8.16.1 kernel + vm_compute",
-    "coq/Model/Eval.v: definitional evaluator written from docs/language-spec.md (ints wrapping at 48 bits, truncating division, short-circuit and/or, block scoping and shadowing, top-level lets as globals, parameters as copies, closures sharing cells, arrays/vecs by reference with bounds checks, ranges, for-each, break/continue, string concatenation and interpolation); floats, structs, slices, casts, std modules other than print/println are outside the modelled fragment and are discarded (counted)",
+    "coq/Model/Eval.v: definitional evaluator written from docs/language-spec.md (ints wrapping at 48 bits, truncating division, short-circuit and/or, block scoping and shadowing, top-level lets as globals, parameters as copies, closures sharing cells, arrays/vecs by reference with bounds checks, ranges, for-each, break/continue, string concatenation and interpolation, float arithmetic/comparison with int promotion through the PrimFloat codec of Model/VmArith.v); float printing, structs, slices, casts, std modules other than print/println are outside the modelled fragment and are discarded (counted)",
     "harness/src/astdump.rs renders aelys_sema::TypedProgram as a Coq term (Grouping and type annotations dropped)",
     "tools/gen/proggen.py generates only terminating, mostly type-correct programs",
 ]
@@ -70,7 +70,7 @@ TRUSTED = [
 def run(ctx):
     ctx.level = "translation_validation"
     ctx.cov["trusted_base"] = TRUSTED
-    proved = ctx.prove("C02")
+    proved = ctx.prove("C02", extracted=["ValueConsts", "Opcodes"])
     if ctx.tier == "thorough" and proved:
         ctx.coqchk("C02")
     ok, out = vlib.coq_make(["Model/EvalObs.vo"])
@@ -80,7 +80,7 @@ def run(ctx):
         return
     n = 400 if ctx.tier == "quick" else 6000
     progs, feats = proggen.generate(ctx.seed * 7919 + 2, n)
-    corpus = load_corpus("C02")
+    corpus, corpus_names = load_corpus("C02", names=True)
     progs = corpus + progs
     feats = [["corpus"]] * len(corpus) + feats
     res = run_stream(ctx, progs)
@@ -110,7 +110,7 @@ def run(ctx):
     if err:
         ctx.broken.append("correspondence C02: model evaluation failed")
         ctx.log(err[-3000:])
-    agree = disc_fuel = disc_frag = 0
+    agree = disc_fuel = disc_frag = relaxed = 0
     nontrivial = set()
     for k, code in enumerate(codes):
         if code is None:
@@ -130,7 +130,17 @@ def run(ctx):
             continue
         lv = [l for l, d in enumerate(digits) if d == 1]
         runs = [res[i]["run"][str(l)] for l in range(4)]
+        # C01's one permitted difference also bounds C02 at optimised levels: if -O0 agrees with
+        # the evaluator and failed, an optimised run may skip that failing computation when its
+        # result is unused, provided -O0's output is a prefix of the optimised output
+        if 0 not in lv and runs[0][0].startswith("runtime:"):
+            lv = [l for l in lv if not runs[l][1].startswith(runs[0][1])]
+            if not lv:
+                relaxed += 1
+                continue
         sig = classify(progs[i], runs, lv)
+        if i < len(corpus):
+            sig = "c02:corpus:" + corpus_names[i] + ":" + sig
         mo, _ = vlib.coq_eval_terms("c02", "From Aelys Require Import Model.Lang Model.Eval Model.EvalObs.\nOpen Scope string_scope.",
                                     [f"obs_of (run_program FUEL {res[i]['ast']['in']})"])
         ctx.violation(sig, f"compiled execution differs from the definitional evaluator at -O{lv}",
@@ -141,6 +151,7 @@ def run(ctx):
     ctx.cov["evaluations"] = len(cases) * 4
     ctx.cov["distinct_nontrivial"] = len(nontrivial)
     ctx.cov["agree_all_levels"] = agree
+    ctx.cov["permitted_skip_of_unused_failing_computation"] = relaxed
     ctx.cov["discarded_model_out_of_fuel"] = disc_fuel
     ctx.cov["discarded_outside_fragment"] = disc_frag
     ctx.cov["input_distribution"] = {"outcome_at_O0": dict(dist), "features": dict(featc)}
@@ -160,11 +171,12 @@ def classify(prog, runs, lv):
     return "c02:optimised-level-differs:" + ",".join(map(str, lv))
 
 
-def load_corpus(pid):
+def load_corpus(pid, names=False):
     d = os.path.join(vlib.VERIF, "corpus", pid)
-    out = []
+    out, ns = [], []
     if os.path.isdir(d):
         for f in sorted(os.listdir(d)):
             if f.endswith(".aelys"):
                 out.append(open(os.path.join(d, f)).read())
-    return out
+                ns.append(f[:-6])
+    return (out, ns) if names else out
